@@ -143,6 +143,31 @@ pub proof fn lemma_we_del_parts(w: Seq<Factor>, w2: Seq<Factor>, c: Carrier, a: 
     lemma_r3s_lin(ct, we_del_grid(w, c, a.del), we_del_onst(w, c, a.del));
     lemma_r3s_lin(ct, r3a(we_del_grid(w, c, a.del), we_del_onst(w, c, a.del)), we_del_cgn(w, c, a.del));
 }
+/// every factor the weighting step needs is present for the second evaluation exactly when it is for the first
+pub proof fn lemma_we_ok_same(w: Seq<Factor>, w2: Seq<Factor>, c: Carrier, a: Run, b: Run, ct: real)
+    requires ct > 0real, we_inputs_rel(a, b, ct), we_lookups_same(w, w2, c, a.exp, a.del),
+    ensures we_factors_ok(w2, c, b.exp, b.del) == we_factors_ok(w, c, a.exp, a.del),
+{
+    let e = rv(a.exp.an);
+    lemma_pos_mul(ct, e); lemma_pos_mul(ct, rv(a.exp.nepus_an)); lemma_pos_mul(ct, rv(a.exp.grid_an)); lemma_pos_mul(ct, rv(a.del.onst_an));
+    if e != 0real {
+        let m_ = a.exp.by_src_an@;
+        if rv(a.exp.nepus_an) != 0real {
+            assert forall|src: ProdSource| m_.contains_key(src) implies #[trigger] key_same(w, w2, c, ps_source(src), Dest::A_NEPB, Step::A) by {}
+            assert forall|src: ProdSource| m_.contains_key(src) implies #[trigger] key_same(w, w2, c, ps_source(src), Dest::A_NEPB, Step::B) by { assert(key_same(w, w2, c, ps_source(src), Dest::A_NEPB, Step::A)); }
+            lemma_favg_scale(w, w2, c, a.exp.by_src_an@, b.exp.by_src_an@, e, ct, Dest::A_NEPB, Step::A);
+            lemma_favg_scale(w, w2, c, a.exp.by_src_an@, b.exp.by_src_an@, e, ct, Dest::A_NEPB, Step::B);
+        }
+        if rv(a.exp.grid_an) != 0real {
+            assert forall|src: ProdSource| m_.contains_key(src) implies #[trigger] key_same(w, w2, c, ps_source(src), Dest::A_RED, Step::A) by {}
+            assert forall|src: ProdSource| m_.contains_key(src) implies #[trigger] key_same(w, w2, c, ps_source(src), Dest::A_RED, Step::B) by { assert(key_same(w, w2, c, ps_source(src), Dest::A_RED, Step::A)); }
+            lemma_favg_scale(w, w2, c, a.exp.by_src_an@, b.exp.by_src_an@, e, ct, Dest::A_RED, Step::A);
+            lemma_favg_scale(w, w2, c, a.exp.by_src_an@, b.exp.by_src_an@, e, ct, Dest::A_RED, Step::B);
+        }
+    }
+    assert(key_same(w, w2, c, Source::RED, Dest::SUMINISTRO, Step::A));
+    assert(rv(a.del.onst_an) != 0real ==> key_same(w, w2, c, Source::INSITU, Dest::SUMINISTRO, Step::A));
+}
 /// THE WEIGHTING THEOREM: annual figures x ct  ==>  same Ok / Err, every weighted figure x ct (so per-carrier RER-type ratios are unchanged)
 pub proof fn thm_weights(w: Seq<Factor>, w2: Seq<Factor>, c: Carrier, k: real, a: Run, b: Run, ct: real, r: Result<WeightedEnergy>, r2: Result<WeightedEnergy>)
     requires ct > 0real, we_inputs_rel(a, b, ct), we_lookups_same(w, w2, c, a.exp, a.del),
